@@ -234,10 +234,12 @@ def gen_html():
                    "else{writeParentTagEnd();m_ispreserve=true;writeCharacters(chars,length);}}"), ch, "characters: script / raw / escaped")
     need(re.escape("{writeParentTagEnd();m_ispreserve=true;accumContent(chars,0,length);}"), _sq(function_body(xsrc, r"FormatterToXML::charactersRaw\s*\(", "charactersRaw")), "charactersRaw")
     wn = _sq(function_body(xsrc, r"FormatterToXML::writeNormalizedChars\s*\(", "writeNormalizedChars"))
-    need(re.escape("if(XalanUnicode::charCR==c&&i+1<end&&XalanUnicode::charLF==ch[i+1]){outputLineSep();i++;}elseif(XalanUnicode::charLF==c){outputLineSep();}elseif(isCData==true&&c>m_maxCharacter)"), wn,
-         "writeNormalizedChars: CR LF and LF")
-    need(re.escape("else{if(c<=m_maxCharacter){accumContent(c);}elseif(0xd800<=c&&c<0xdc00){") + ".*?" + re.escape("next=((c-0xd800)<<10)+next-0xdc00+0x00010000;writeNumberedEntityReference(next);}}else{writeNumberedEntityReference(c);}}"), wn,
-         "writeNormalizedChars: literal or reference")
+    need(re.escape("if(XalanUnicode::charCR==c&&i+1<end&&XalanUnicode::charLF==ch[i+1]&&(isCData==false||isReferenceInCDATA(c)==false)){outputLineSep();i++;}elseif(XalanUnicode::charLF==c){outputLineSep();}"
+                   "elseif(isCData==true&&isReferenceInCDATA(c)==true)"), wn, "writeNormalizedChars: CR LF and LF (outside CDATA sections: always)")
+    need(re.escape("else{if(c<=m_maxCharacter){if(0xd800<=c&&c<0xe000){if(c>=0xdc00||i+1>=end||!(0xdc00<=ch[i+1]&&ch[i+1]<0xe000)){throwInvalidUTF16SurrogateException(c,getMemoryManager());}"
+                   "accumContent(c);accumContent(ch[++i]);}else{accumContent(c);}}elseif(0xdc00<=c&&c<0xe000){throwInvalidUTF16SurrogateException(c,getMemoryManager());}elseif(0xd800<=c&&c<0xdc00){") + ".*?" +
+         re.escape("next=((c-0xd800)<<10)+next-0xdc00+0x00010000;writeNumberedEntityReference(next);}}else{writeNumberedEntityReference(c);}}}}") + "$", wn,
+         "writeNormalizedChars: a unit of the encoding as it is (surrogates only in pairs), else a reference (a lone surrogate is an error)")
     # ---- comment / PI
     cm = _sq(function_body(xsrc, r"FormatterToXML::comment\s*\(", "comment"))
     need(re.escape("writeParentTagEnd();if(shouldIndent()==true){indent(m_currentIndent);}accumName(XalanUnicode::charLessThanSign);accumName(XalanUnicode::charExclamationMark);accumName(XalanUnicode::charHyphenMinus);"
@@ -246,11 +248,12 @@ def gen_html():
     pi = _sq(function_body(src, r"FormatterToHTML::processingInstruction\s*\(", "processingInstruction"))
     need(re.escape("if(equals(target,length(target),s_piTarget,s_piTargetLength)==true&&equals(data,dataLength,s_piData,s_piDataLength)==true){m_nextIsRaw=true;}else{writeParentTagEnd();if(shouldIndent()==true){indent(m_currentIndent);}"
                    "accumContent(XalanUnicode::charLessThanSign);accumContent(XalanUnicode::charQuestionMark);accumName(target);if(length(data)>0){if(isXMLWhitespace(data[0])==false){accumContent(XalanUnicode::charSpace);}"), pi, "PI: <?target")
-    pi_escaped = "writeCharacters(data,dataLength);}accumContent(XalanUnicode::charGreaterThanSign);if(m_elementLevel==0){outputLineSep();}" in pi
-    pi_raw = "accumNormalizedPIData(data,dataLength);}accumContent(XalanUnicode::charGreaterThanSign);if(m_elementLevel==0){outputLineSep();}" in pi or \
-             "accumContent(data,0,dataLength);}accumContent(XalanUnicode::charGreaterThanSign);if(m_elementLevel==0){outputLineSep();}" in pi
-    if not (pi_escaped or pi_raw):
-        raise AnchorError("processingInstruction: neither writeCharacters(data) nor raw data before '>'")
+    # exactly two shapes of the site between "<?target[ ]" and '>': escaped (as found) and raw (the repaired loop)
+    tail = "}accumContent(XalanUnicode::charGreaterThanSign);if(m_elementLevel==0){outputLineSep();}m_startNewLine=true;}}"
+    pi_escaped = pi.endswith("writeCharacters(data,dataLength);" + tail)
+    pi_raw = pi.endswith("for(size_typei=0;i<dataLength;++i){accumContent(data[i]);}" + tail)
+    if pi_escaped == pi_raw:
+        raise AnchorError("processingInstruction: neither writeCharacters(data, dataLength) nor the unit-by-unit accumContent(data[i]) loop before '>'")
     out += "Definition pi_data_is_escaped : bool := %s.    (* data goes through writeCharacters *)\n" % ("true" if pi_escaped else "false")
     facts["pi_data_is_escaped"] = pi_escaped
     # ---- strings
